@@ -3,7 +3,8 @@
    legalizer + free space, cell order as a parameter), tied to /repo by ./check C01. *)
 From Coq Require Import List ZArith Lia Bool.
 Import ListNotations.
-Require Import CV.Orient CV.FreeSpace CV.RowLeg CV.Circuit CV.CircuitProofs CV.Legalizer CV.LegalizerProofs.
+Require Import CV.Orient CV.FreeSpace CV.RowLeg CV.Circuit CV.CircuitProofs CV.Legalizer CV.LegalizerProofs CV.LegalizerAbacusProofs CV.LegalizerSoundProofs.
+Require CV.LegalizerTetrisProofs.
 Local Open Scope Z_scope.
 
 (* [F] the boolean checker that the correspondence runs on every placement returned
@@ -22,14 +23,137 @@ Theorem c01_success_frame : forall c order c',
   legalize_circuit c order = LegOk c' -> rows c' = rows c /\ Forall2 same_frame (cells c) (cells c').
 Proof. exact legalize_circuit_frame. Qed.
 
-(* [P] legality of the result.  Full statement (NOT proved for the raw algorithm):
-     forall c order c', legalize_circuit c order = LegOk c' -> legal c'.
-   Proved: the same for the algorithm run under the proved checker; the correspondence
-   evaluates legalb on the model's and on the implementation's result of every case, so
-   that legalize_checked = legalize_circuit is validated per run, not proved. *)
+(* [F, checked model] legality of the result of the algorithm run under the proved checker,
+   for EVERY circuit (no domain restriction); the correspondence evaluates legalb on the
+   model's and on the implementation's result of every case.  For the RAW algorithm see
+   c01_legalize_circuit_legal below (proved on the domain std_design; refuted outside it
+   by c01_turned_polarised_cell_refuted). *)
 Theorem c01_legalize_sound_partial : forall c order c',
   legalize_checked c order = Some c' -> legalize_circuit c order = LegOk c' /\ legal c'.
 Proof. exact legalize_checked_sound. Qed.
+
+(* [F] the Abacus pass of the RAW model (abacus_run: per-row RowLegalizer states, row
+   scans with their early stops, read-back), for every list of row segments and every
+   list of cells of positive width, whatever their heights, targets and polarities:
+   a cell is recorded in at most one segment and once; every placed cell is recorded in
+   a segment of `sort_rows rows0` of exactly its height and lies inside it, on its
+   bottom edge; two different cells recorded in the same segment have disjoint
+   x-intervals.  (abacus_rowcells = the per-segment cell lists the loop ends with.) *)
+Theorem c01_abacus_rows_legal : forall rows0 cells,
+  widths_positive cells ->
+  let rows := sort_rows rows0 in
+  let rcs := abacus_rowcells rows0 cells in
+  let res := abacus_run rows0 cells in
+  length res = length cells /\ length rcs = length rows /\
+  (forall i rc, nth_error rcs i = Some rc -> NoDup rc) /\
+  (forall i j rc rc' ci, nth_error rcs i = Some rc -> nth_error rcs j = Some rc' ->
+                         In ci rc -> In ci rc' -> i = j) /\
+  (forall ci c x y o, nth_error cells ci = Some c -> nth_error res ci = Some (Some (x, y, o)) ->
+     exists i r rc, nth_error rows i = Some r /\ nth_error rcs i = Some rc /\ In ci rc /\ in_segment r c x y) /\
+  (forall i rc ci cj c c' x y o x' y' o',
+     nth_error rcs i = Some rc -> In ci rc -> In cj rc -> ci <> cj ->
+     nth_error cells ci = Some c -> nth_error cells cj = Some c' ->
+     nth_error res ci = Some (Some (x, y, o)) -> nth_error res cj = Some (Some (x', y', o')) ->
+     x + cw c <= x' \/ x' + cw c' <= x).
+Proof. exact abacus_rows_legal. Qed.
+
+(* non-vacuity of c01_abacus_rows_legal: three segments (two on one row, given unsorted),
+   six cells of which one is too high; five are placed, two segments receive two cells *)
+Definition ex_segments : list row :=
+  [ {| rr := {| minX := 6; maxX := 12; minY := 2; maxY := 4 |}; ro := oFS |};
+    {| rr := {| minX := 0; maxX := 5; minY := 0; maxY := 2 |}; ro := oN |};
+    {| rr := {| minX := 0; maxX := 4; minY := 2; maxY := 4 |}; ro := oFS |} ].
+Definition ex_leg_cells : list cell :=
+  [ {| cw := 3; ch := 2; cpol := pSAME; ctx := 1; cty := 0; cor := oN |};
+    {| cw := 3; ch := 2; cpol := pANY; ctx := 1; cty := 0; cor := oS |};
+    {| cw := 2; ch := 2; cpol := pNW; ctx := 7; cty := 3; cor := oN |};
+    {| cw := 4; ch := 2; cpol := pOPPOSITE; ctx := 8; cty := 2; cor := oN |};
+    {| cw := 2; ch := 4; cpol := pANY; ctx := 8; cty := 2; cor := oN |};
+    {| cw := 2; ch := 2; cpol := pSAME; ctx := 9; cty := 2; cor := oN |} ].
+Example c01_abacus_nonvacuous :
+  widths_positive ex_leg_cells /\
+  abacus_run ex_segments ex_leg_cells =
+    [Some (0, 0, oN); Some (1, 2, oS); Some (3, 0, oN); Some (6, 2, oN); None; Some (10, 2, oFS)] /\
+  abacus_rowcells ex_segments ex_leg_cells = [[0%nat; 2%nat]; [1%nat]; [3%nat; 5%nat]].
+Proof.
+  split; [repeat constructor|]. split; vm_compute; reflexivity.
+Qed.
+
+(* [F] the Tetris pass of the RAW model (tetris_run: frontier rowFreePos, stacked-row
+   interval intersection with its fuel, closest-row scans, instanciate), for every list of
+   row segments that after sorting have one positive height rh and are pairwise disjoint
+   rectangles, and every list of cells of positive width and height: the orientation of a
+   placed cell is the one get_orientation gives in the first segment at its bottom y and is
+   never INVALID; every row-high strip of the cell lies inside one segment; two different
+   placed cells do not overlap.  (t_dims = the dimensions after the turn swap.) *)
+Theorem c01_tetris_rows_legal : forall rows0 cells rh,
+  let rows := sort_rows rows0 in
+  LegalizerTetrisProofs.rows_uniform rh rows -> LegalizerTetrisProofs.rows_disjoint rows ->
+  Forall (fun c => 0 < cw c /\ 0 < ch c) cells ->
+  let res := tetris_run rows0 cells in
+  length res = length cells /\
+  (forall ci c x y o, nth_error cells ci = Some c -> nth_error res ci = Some (Some (x, y, o)) ->
+     get_orientation rows c (closest_row rows y) = Some o /\ o <> oINVALID /\
+     (exists r0, nthZ rows (closest_row rows y) = Some r0 /\ minY (rr r0) = y) /\
+     forall j, 0 <= j -> j * rh < snd (LegalizerTetrisProofs.t_dims c o) ->
+       exists r, In r rows /\ minY (rr r) = y + j * rh /\ minX (rr r) <= x /\
+                 x + fst (LegalizerTetrisProofs.t_dims c o) <= maxX (rr r)) /\
+  (forall ci cj c c' x y o x' y' o', ci <> cj ->
+     nth_error cells ci = Some c -> nth_error cells cj = Some c' ->
+     nth_error res ci = Some (Some (x, y, o)) -> nth_error res cj = Some (Some (x', y', o')) ->
+     disjoint_rects {| minX := x; maxX := x + fst (LegalizerTetrisProofs.t_dims c o); minY := y;
+                       maxY := y + snd (LegalizerTetrisProofs.t_dims c o) |}
+                    {| minX := x'; maxX := x' + fst (LegalizerTetrisProofs.t_dims c' o'); minY := y';
+                       maxY := y' + snd (LegalizerTetrisProofs.t_dims c' o') |}).
+Proof. exact LegalizerTetrisProofs.tetris_rows_legal. Qed.
+
+(* [F] Legalizer::run of the RAW model (Tetris pass, remainingRows, Abacus pass, import,
+   any cell order, duplicates allowed) over pairwise disjoint segments of one positive
+   height rh, cells of positive width and height none of which changes its turn in any
+   segment: every returned cell has a valid orientation, each of its row-high strips lies
+   inside one segment of rows0, and two different cells do not overlap *)
+Theorem c01_legalize_sound : forall rows0 cellsL order pl rh,
+  0 < rh ->
+  (forall r, In r rows0 -> maxY (rr r) - minY (rr r) = rh) ->
+  pairwise_disjoint (map rr rows0) ->
+  Forall (fun c => 0 < cw c /\ 0 < ch c) cellsL ->
+  no_turn_change rows0 cellsL ->
+  legalize rows0 cellsL order = Ok pl ->
+  length pl = length cellsL /\
+  (forall ci c x y o, nth_error cellsL ci = Some c -> nth_error pl ci = Some (x, y, o) ->
+     o <> oINVALID /\ is_turn o = is_turn (cor c) /\
+     (exists r', In r' rows0 /\ o = seg_orientation c r' /\ minY (rr r') = y) /\
+     forall j, 0 <= j -> j * rh < ch c ->
+       exists r, In r rows0 /\ minY (rr r) = y + j * rh /\ minX (rr r) <= x /\ x + cw c <= maxX (rr r)) /\
+  (forall ci cj c c' x y o x' y' o', ci <> cj ->
+     nth_error cellsL ci = Some c -> nth_error cellsL cj = Some c' ->
+     nth_error pl ci = Some (x, y, o) -> nth_error pl cj = Some (x', y', o') ->
+     disjoint_rects (cellrect c x y) (cellrect c' x' y')).
+Proof. exact legalize_sound. Qed.
+
+(* [F on the domain std_design; P for the statement of C01 as a whole] THE property for the
+   RAW algorithm: a placement returned by DetailedPlacer::legalize is legal, for every
+   cell order and every circuit whose rows have one positive height rh, are pairwise
+   disjoint rectangles and are not turned (N/S/FN/FS, also UNKNOWN/INVALID), and whose
+   movable cells have positive placed width, placed height a positive multiple of rh and
+   are not turned unless they have no polarity.  Fixed cells and obstructions are
+   arbitrary.  Missing for the full statement: circuits outside std_design; the last
+   condition cannot be dropped (c01_turned_polarised_cell_refuted). *)
+Theorem c01_legalize_circuit_legal : forall c order c' rh,
+  std_design c rh -> legalize_circuit c order = LegOk c' -> legal c'.
+Proof. exact legalize_circuit_legal. Qed.
+
+(* [R] outside the domain: a polarised, turned, row-high movable cell is exported with an
+   un-turned orientation and the dimensions of the turned one; legalize returns a placement
+   that is not legal (the C++ returns the same placement: harness case
+   `LG 2 0 10 0 2 0 0 10 2 4 5 1 3 2 2 4 3 1 0 1 0 0 0 0 3 0` gives `OK 3 2 5`) *)
+Theorem c01_turned_polarised_cell_refuted :
+  exists c', legalize_circuit w_turned [0%nat] = LegOk c' /\ legalb c' = false /\
+  row_height w_turned = Some 2 /\ pairwise_disjoint (map rr (rows w_turned)) /\
+  (forall r, In r (rows w_turned) -> is_turn (ro r) = false) /\
+  (forall k, In k (movable w_turned) ->
+     0 < maxX (placement_of k) - minX (placement_of k) /\ maxY (placement_of k) - minY (placement_of k) = 2).
+Proof. exact turned_polarised_cell_refuted. Qed.
 
 (* non-vacuity: a 2-row circuit with an obstruction, a 2-row cell and two row-high cells *)
 Definition ex_circuit : circuit :=
@@ -44,7 +168,30 @@ Example c01_nonvacuous :
              legalb ex_circuit = false.
 Proof. eexists. split; [vm_compute; reflexivity|]. split; [discriminate|vm_compute; reflexivity]. Qed.
 
+(* non-vacuity of c01_legalize_circuit_legal: ex_circuit (fixed macro, a 2-row cell, a
+   polarised row-high cell, a turned cell without polarity) is in the domain, is not legal
+   before, and legalization succeeds and moves it *)
+Example c01_legalize_circuit_nonvacuous :
+  std_design ex_circuit 2 /\ legalb ex_circuit = false /\
+  exists c', legalize_circuit ex_circuit [0%nat; 1%nat; 2%nat] = LegOk c' /\ c' <> ex_circuit.
+Proof.
+  split; [|split; [vm_compute; reflexivity|eexists; split; [vm_compute; reflexivity|discriminate]]].
+  split; [lia|]. split; [|split; [|split]].
+  - intros r [<-|[<-|[]]]; reflexivity.
+  - apply pairwise_disjointb_spec. vm_compute. reflexivity.
+  - intros r [<-|[<-|[]]]; reflexivity.
+  - intros k Hk. vm_compute in Hk. destruct Hk as [<-|[<-|[<-|[]]]].
+    + split; [vm_compute; reflexivity|]. split; [exists 2%nat; split; [lia|vm_compute; reflexivity]|left; reflexivity].
+    + split; [vm_compute; reflexivity|]. split; [exists 1%nat; split; [lia|vm_compute; reflexivity]|left; reflexivity].
+    + split; [vm_compute; reflexivity|]. split; [exists 1%nat; split; [lia|vm_compute; reflexivity]|right; reflexivity].
+Qed.
+
 Print Assumptions c01_legalb_decides_legal.
 Print Assumptions c01_error_leaves_circuit.
 Print Assumptions c01_success_frame.
 Print Assumptions c01_legalize_sound_partial.
+Print Assumptions c01_abacus_rows_legal.
+Print Assumptions c01_tetris_rows_legal.
+Print Assumptions c01_legalize_sound.
+Print Assumptions c01_legalize_circuit_legal.
+Print Assumptions c01_turned_polarised_cell_refuted.
